@@ -77,7 +77,7 @@ Definition audited_risky : list (string * string * nat * nat * nat * nat) := [
   ("py", "init@generator.go", 3%nat, 0%nat, 0%nat, 0%nat);
   ("py", "XImportModuleLevelObject", 4%nat, 0%nat, 5%nat, 0%nat);
   ("py", "BuiltinImport", 1%nat, 0%nat, 0%nat, 0%nat);
-  ("py", "IntFromString", 0%nat, 8%nat, 2%nat, 0%nat);
+  ("py", "IntFromString", 0%nat, 10%nat, 2%nat, 0%nat);
   ("py", "Iterator.M__next__", 0%nat, 1%nat, 0%nat, 0%nat);
   ("py", "init@list.go", 2%nat, 3%nat, 0%nat, 0%nat);
   ("py", "NewListFromStrings", 0%nat, 1%nat, 0%nat, 0%nat);
@@ -100,10 +100,11 @@ Definition audited_risky : list (string * string * nat * nat * nat * nat) := [
   ("py", "init@set.go", 1%nat, 1%nat, 0%nat, 0%nat);
   ("py", "init@slice.go", 3%nat, 0%nat, 0%nat, 0%nat);
   ("py", "init@staticmethod.go", 1%nat, 0%nat, 0%nat, 0%nat);
-  ("py", "init@string.go", 13%nat, 7%nat, 0%nat, 0%nat);
+  ("py", "init@string.go", 12%nat, 6%nat, 2%nat, 0%nat);
   ("py", "String.M__mod__", 0%nat, 2%nat, 0%nat, 0%nat);
   ("py", "String.slice", 0%nat, 0%nat, 3%nat, 0%nat);
   ("py", "String.M__getitem__", 0%nat, 4%nat, 3%nat, 0%nat);
+  ("py", "String.window", 0%nat, 5%nat, 0%nat, 0%nat);
   ("py", "String.Count", 3%nat, 0%nat, 0%nat, 0%nat);
   ("py", "String.find", 3%nat, 0%nat, 1%nat, 0%nat);
   ("py", "String.Split", 1%nat, 0%nat, 0%nat, 0%nat);
